@@ -207,12 +207,16 @@ CHECKS.update({
         "PVL token alphabet, all strings up to length 4 / 5 over a "
         "12-character alphabet (both exhaustive), truncations of every "
         "tests/data label and of generated labels at every offset, random "
-        "corpus splices; x 5 parsers. A load must return or raise "
+        "corpus splices, every sequence of up to 5 tokens in value position, "
+        "all pairs of borderline atoms glued together, and a coverage-guided "
+        "stage (atheris/libFuzzer over the corpus, fixed seed and run count "
+        "per shard, same oracle); x 5 parsers. A load must return or raise "
         "LexerError/ParseError within 50*(len+2) token pulls (largest ratio "
         "observed is reported) and 20 s CPU.",
         "Termination is restated as bounded progress; RecursionError only "
-        "excluded above bracket depth 30; atheris-guided fuzzing is not part "
-        "of the registered commands.",
+        "excluded above bracket depth 30; the coverage-guided stage is extra "
+        "reach and is reported as not run if atheris cannot be installed "
+        "from the offline wheelhouse.",
         "DESIGN.md section 4 C06, 3.5",
     ),
     "C08": (
